@@ -1215,10 +1215,10 @@ def oracle_atheris(case):
 # open finding KEY_NARROWF on the unchanged tree (its cases are excluded and carry no labels there), so its guard only exists
 # once that key is no longer listed open.
 _FORMS_SHARE = {'nt': 0.45, 'ledger': 0.37, 'ledger_across_reset': 0.13, 'mut_in': 0.17, 'mut_out': 0.23, 'reuse_out': 0.1,
-                'decades': 0.21, 'decades_16': 0.15, 'dtype_limit': 0.15, 'factor_one_expr': 0.28, 'factor_near_one': 0.15,
+                'decades': 0.21, 'decades_16': 0.14, 'dtype_limit': 0.15, 'factor_one_expr': 0.28, 'factor_near_one': 0.15,
                 'form_bigendian': 0.14, 'form_bool': 0.028, 'form_fortran': 0.11, 'form_listtuple': 0.13, 'form_narrow_int': 0.19,
-                'form_npscalar': 0.12, 'form_readonly': 0.088, 'form_strided': 0.145, 'form_unsigned': 0.115, 'style_edit': 0.15,
-                'style_recall': 0.05, 'value_near': 0.098, 'value_halves': 0.049, 'op_lit': 0.11, 'op_get': 0.28, 'near_one_lit': 0.2,
+                'form_npscalar': 0.12, 'form_readonly': 0.088, 'form_strided': 0.145, 'form_unsigned': 0.11, 'style_edit': 0.15,
+                'style_recall': 0.046, 'value_near': 0.083, 'value_halves': 0.049, 'op_lit': 0.1, 'op_get': 0.26, 'near_one_lit': 0.19,
                 'reset_between': 0.2}
 if KEY_NARROWF not in load_known('C09')[0]:
     _FORMS_SHARE['narrow_float'] = 0.06     # 0.12 on the repaired tree
@@ -1227,26 +1227,26 @@ if KEY_NARROWF not in load_known('C09')[0]:
 # the wall budget when the machine is shared
 CLAUSES = [
     Clause('precedence', oracle_precedence, g9.precedence_cases, quick=37000, thorough=700000,
-           min_share={'nt': 0.37, 'div_then_op': 0.23, 'pow_in_product': 0.37, 'grp_product_pow': 0.12, 'paren_right_operand': 0.13,
-                      'nested_paren': 0.09, 'ws_tab': 0.16, 'ws_newline': 0.16, 'ws_cr': 0.12, 'exotic_name': 0.14,
-                      'lit_leading_dot': 0.035, 'neg_exp': 0.24, 'cfg_named': 0.25, 'cfg_seed': 0.16,
+           min_share={'nt': 0.36, 'div_then_op': 0.21, 'pow_in_product': 0.36, 'grp_product_pow': 0.12, 'paren_right_operand': 0.12,
+                      'nested_paren': 0.086, 'ws_tab': 0.16, 'ws_newline': 0.16, 'ws_cr': 0.12, 'exotic_name': 0.14,
+                      'lit_leading_dot': 0.035, 'neg_exp': 0.22, 'cfg_named': 0.25, 'cfg_seed': 0.16,
                       'near_int_exp': 0.11, 'near_one_lit': 0.025},
            max_share={'range_skip': 0.05},
            desc='uc.parse(rendered expression) equals my AST evaluator (parentheses, powers, then * / left to right) to 1e-12, '
                 'under random / SI / named working units'),
     Clause('identity', oracle_identity, g9.identity_cases, quick=15000, thorough=200000,
-           min_share={'nt': 0.3, 'near_int_exp': 0.08, 'near_one_lit': 0.02, 'mode_literal': 0.14, 'literal_list': 0.08, 'literal_nounit': 0.03, 'mode_scaled': 0.03,
-                      'mode_none': 0.03, 'ndim2': 0.05, 'ndim3': 0.06, 'as_array': 0.18, 'as_tuple': 0.06},
+           min_share={'nt': 0.29, 'near_int_exp': 0.08, 'near_one_lit': 0.02, 'mode_literal': 0.14, 'literal_list': 0.08, 'literal_nounit': 0.03, 'mode_scaled': 0.03,
+                      'mode_none': 0.03, 'ndim2': 0.05, 'ndim3': 0.06, 'as_array': 0.17, 'as_tuple': 0.06},
            max_share={'range_skip': 0.05},
            desc='get_in_units(set_in_units(v,u),u) = v to 4 eps; set_in_units = v*factor; set_literal("v u") = v*factor; shapes kept; '
                 'None / "scaled" units'),
     Clause('invariance', oracle_invariance, g9.invariance_cases, quick=11000, thorough=160000,
-           min_share={'nt': 0.4, 'expanded': 0.14, 'distinct_cfgs_3': 0.29, 'dimensional': 0.44, 'kw_reordered': 0.2},
+           min_share={'nt': 0.38, 'expanded': 0.12, 'distinct_cfgs_3': 0.29, 'dimensional': 0.43, 'kw_reordered': 0.2},
            max_share={'range_skip': 0.05},
            desc='same-dimension expression pairs (class substitution / expansion from my dimension table): conversion A -> B gives the '
                 'same number under three working-unit configurations (1e-10)'),
     Clause('history', oracle_history, g9.history_cases, quick=1200, thorough=40000,
-           min_share={'nt': 0.5, 'only_charge': 0.25, 'only_energy': 0.18, 'only_length': 0.18, 'only_mass': 0.18, 'only_time': 0.1,
+           min_share={'nt': 0.48, 'only_charge': 0.25, 'only_energy': 0.18, 'only_length': 0.18, 'only_mass': 0.18, 'only_time': 0.1,
                       'revisit': 0.18, 'extra_exprs': 0.3},
            desc='walks of 3-8 working-unit choices in one process, consecutive named choices differing in exactly one quantity '
                 '(name changed / dropped / added; keywords in a drawn order; occasional seed, SI and same-choice steps): after every '
@@ -1265,18 +1265,18 @@ CLAUSES = [
                 'the way back (4 eps); every result and argument is kept in a ledger and compared bit for bit after every later call, '
                 'reset_units and caller-side overwrite of arguments and results; nothing returned shares memory with an argument or '
                 'another result; style tables equal the first call on a freshly loaded module whatever was called or edited before'),
-    Clause('named', oracle_named, enumerate=named_enumerate, nshards=1, min_share={'nt': 0.37, 'refusal': 0.01, 'kw_orders_24': 0.2, 'kw_orders_6': 0.17},
+    Clause('named', oracle_named, enumerate=named_enumerate, nshards=1, min_share={'nt': 0.36, 'refusal': 0.01, 'kw_orders_24': 0.2, 'kw_orders_6': 0.16},
            desc='exhaustive: every non-over-determined choice of <= 4 named working units, keywords passed in EVERY order: each '
                 'chosen unit is one (1e-12) via unit[], parse and get_in_units, the table is the same after different previous '
                 'configurations and for every keyword order; documented ValueError refusals'),
     Clause('pairs', oracle_pairs, enumerate=pairs_enumerate, nshards=1,
-           min_share={'nt': 0.5, 'reset_pair': 0.45, 'style_pair': 0.015, 'same_choice': 0.015, 'mid_seed': 0.15, 'mid_SI': 0.15,
+           min_share={'nt': 0.48, 'reset_pair': 0.45, 'style_pair': 0.015, 'same_choice': 0.015, 'mid_seed': 0.15, 'mid_SI': 0.15,
                       'other_quantities': 0.4, 'style_edit': 0.01},
            desc='exhaustive: every ordered pair of named working-unit choices (29 x 29 subsets of the quantities, and the same choice '
                 'asked for again), with nothing / a random seed / SI in between: chosen units are one and the table equals the one '
                 'reached from the SI baseline (1e-12); every ordered pair of the 8 LAMMPS unit styles, with the caller editing the '
                 'first table in between: the second table equals the first call on a freshly loaded module'),
-    Clause('lammps_dims', oracle_lammps, enumerate=lammps_enumerate, nshards=1, min_share={'nt': 0.4},
+    Clause('lammps_dims', oracle_lammps, enumerate=lammps_enumerate, nshards=1, min_share={'nt': 0.38},
            desc='exhaustive: 8 styles x 13 mechanical keys: dimension exponents recovered by regression over 12 random seeds equal '
                 'the dimension of the quantity (1e-6); lj entries are None'),
     Clause('atheris', oracle_atheris, enumerate=atheris_enumerate,
